@@ -13,6 +13,10 @@ mod c09;
 
 pub mod c18;
 
+pub mod c19;
+pub mod c20;
+pub mod nodeops;
+
 pub fn dispatch(_cmd: &str, _a: &Args) -> bool {
     if c08::dispatch(_cmd, _a) || c09::dispatch(_cmd, _a) {
         return true;
@@ -29,6 +33,11 @@ pub fn dispatch(_cmd: &str, _a: &Args) -> bool {
         "c15" => rel::c15(_a),
         "c18-decode" => c18::decode_cmd(_a),
         "c18-child" => c18::child(_a),
+        "c19" => c19::c19(_a),
+        "c19-replay" => c19::c19_replay(_a),
+        "c19-restable" => c19::c19_restable(_a),
+        "c20" => c20::c20(_a),
+        "c20-replay" => c20::c20_replay(_a),
         _ => return false,
     }
     #[allow(unreachable_code)]
